@@ -550,12 +550,10 @@ func typeLiteralSafe(t *Type) bool {
 	return ok
 }
 
-// fieldDefaultOK excludes finding D12: a default on a field whose declared type
-// is a typedef with a non-primitive root does not compile.
+// fieldDefaultOK: a default can be written for a field of this type (finding D12 —
+// a default on a field whose type is a typedef with a non-primitive root did not
+// compile — is repaired; such fields get defaults like any other).
 func fieldDefaultOK(t *Type) bool {
-	if t.K == Named && t.Ref.Kind == Typedef && !t.IsPrim() {
-		return false
-	}
 	return typeLiteralSafe(t) && constable(t, 3)
 }
 
